@@ -48,6 +48,8 @@ def setup(rep, tier):
     rep.minimum('R13.5', 3)
     rep.minimum('R13.6', 9)
     rep.minimum('R13.7', 3)
+    rep.minimum('R13.8', 1)
+    rep.minimum('R13.9', 6)
 
 
 def base_type(t):
@@ -446,7 +448,58 @@ def r13_7(rep, prog):
         rep.unresolved('R13.7', 'only %d stores into 16-bit PCM found in the decoder output path' % n)
 
 
+# ------------------------------------------------------------------ R13.9
+def r13_9(rep, prog):
+    """the 16-bit / 24-bit / float entry points of one API are siblings: same parameter list, same *_native
+    worker.  Every helper they call before the worker (packet duration query, frame-size selection, matrix /
+    state accessors) must be called under the same conditions in each sibling that calls it - otherwise one
+    sample format clamps, selects or rejects where the others do not, and sample counts / state diverge."""
+    fams = {}
+    for f in prog.functions_all:
+        if f.static or not f.file.startswith('src/'):
+            continue
+        natives = [sx.callee_name(c) for c in f.calls() if (sx.callee_name(c) or '').endswith('_native')]
+        if natives:
+            fams.setdefault((f.file, natives[0], tuple(q['name'] for q in f.params)), []).append(f)
+    n = 0
+    for (file_, native, sig), fs in sorted(fams.items()):
+        if len(fs) < 2:
+            continue
+        per = {}
+        for f in fs:
+            rep.functions.add(f.name)
+            cg = cfgm.CFG(f)
+            for b, i, s_ in cg.positions():
+                for c in sx.walk(s_):
+                    cn = sx.callee_name(c) if sx.kind(c) == 'call' else None
+                    if not cn or cn == native or cn.startswith('__') or cn in ('celt_fatal', 'abort'):
+                        continue
+                    if prog.resolve_in(f, cn) is None:
+                        continue
+                    g = frozenset((sx.key(sx.strip(cnd)), pol) for cnd, pol, gb in cfgm.guards_of(cg, b) if cnd is not None)
+                    shown = ' && '.join(sorted('%s%s' % ('' if pol else '!', sx.show(cnd)) for cnd, pol, gb in cfgm.guards_of(cg, b) if cnd is not None))
+                    per.setdefault(cn, {}).setdefault(f.name, {})[g] = (shown, sx.line(c))
+        for cn, d in sorted(per.items()):
+            if len(d) < 2:
+                continue
+            n += 1
+            names = sorted(d)
+            ref = set(d[names[0]])
+            inst = '%s:%s call %s under the same conditions' % (prog.config, '/'.join(names), cn)
+            diff = [nm for nm in names[1:] if set(d[nm]) != ref]
+            if diff:
+                a, b_ = names[0], diff[0]
+                rep.violated('R13.9', inst, '%s:%s' % (file_, list(d[b_].values())[0][1]), '%s calls it under `%s`, %s under `%s`' % (
+                    a, ' | '.join(v[0] for v in d[a].values()), b_, ' | '.join(v[0] for v in d[b_].values())), key='%s:%s' % (native, cn))
+            else:
+                rep.holds('R13.9', inst, '%s:%s' % (file_, list(d[names[0]].values())[0][1]), 'guards `%s`' % ' | '.join(v[0] for v in d[names[0]].values()))
+    return n
+
+
 def check(rep, prog, tier):
+    r13_9(rep, prog)
+    from . import softclipmem
+    softclipmem.check(rep, prog, 'R13.8', 'always')
     r13_7(rep, prog)
     r13_1(rep, prog)
     r13_26(rep, prog)
